@@ -18,7 +18,7 @@
 From Coq Require Import List PeanoNat NArith Bool Lia ZifyN ZifyNat ZifyBool.
 From Frugal Require Import Bytes Wire Skip Values Desc Spec Encode Decode Checks.
 From Frugal.gen Require Import Params.
-From Frugal.proofs Require Import DecodeSound GenOk BytesWire EncodeSpec SizeExact SkipPut DecodeSafe DecodeRefines RoundTrip Corollaries.
+From Frugal.proofs Require Import DecodeSound BytesWire EncodeSpec SizeExact SkipPut DecodeSafe DecodeRefines RoundTrip Corollaries.
 Import ListNotations.
 Open Scope N_scope.
 
